@@ -29,7 +29,7 @@ TEXTS = [
     " x",
 ]
 SIMPLE_TEXTS = [None, None, None, "x", "hello world", "hello there", "y z"]
-COMMENTS = ["c", "note", "hello world", "hello there", " ", "a, b"]
+COMMENTS = ["c", "note", "hello world", "hello there", " ", "a, b", "two  blanks", "line\nbreak", "tab\there", " lead and trail  "]
 
 
 def rand_text(r, simple=False):
